@@ -2019,7 +2019,7 @@ def run(ck: Check):
             all_findings.extend(fs)
 
     evs = alphabet(2, 2, 2)
-    depth = 5 if thorough else 4
+    depth = 5 if thorough else 3
     prefixes = [[a, b] for a in FIRST for b in evs]
     ck.rng.shuffle(prefixes)
     ngroups = 4 * ncpu if thorough else ncpu
@@ -2032,8 +2032,8 @@ def run(ck: Check):
         djobs += [(f, 7, 2, 3, 3) for f in alphabet(2, 3, 3)]
         djobs += [(f, 5, 3, 3, 3) for f in alphabet(3, 3, 3)]
     else:
-        djobs = [(None, 14, 2, 2, 2), (None, 6, 3, 2, 2)]
-    nrand = 100000 if thorough else 4000
+        djobs = [(None, 14, 2, 2, 2), (None, 5, 3, 2, 2)]
+    nrand = 100000 if thorough else 2500
     per = 250
     rjobs = [(ck.rng.randrange(1 << 30), per, 30, False, True)
              for _ in range(nrand // per)]
